@@ -384,3 +384,59 @@ class MTVRP(Adapter):
                 "ulh": self._int(d["ulh"][r], CAP_UNIT),
                 "ubh": self._int(d["ubh"][r], CAP_UNIT),
                 "visited": [k for k, x in enumerate(d["visited"][r]) if x]}
+
+
+class MTVRPDecimal(MTVRP):
+    """The embedding the bundled generator uses (scale_demand): demand = k / capacity as float32, vehicle capacity 1.0.
+    The integer problem (demands k, capacity c) is unchanged; float rounding of partial sums is the code's business.
+    Capacity-only variants (CVRP, VRPB); families built around exact fills (a route's demands sum to the capacity)."""
+    tag = "mtvrp_decimal"
+    properties = ("C01", "C02", "C05", "C06")
+
+    def family(self, tier, seed=0):
+        rnd = random.Random(seed)
+        insts = []
+        N = 4
+        pts, g, D = points_for(N + 1, 0, 0)
+        caps = (20, 30, 50) if tier == "quick" else (20, 30, 40, 50, 7, 11, 13)
+        for cap in caps:
+            for k in range(8 if tier == "quick" else 40):
+                a = rnd.randint(1, cap - 2)
+                b = rnd.randint(1, cap - a - 1)
+                c = cap - a - b
+                d = rnd.randint(1, min(9, cap))
+                dem = [a, b, c, d]
+                rnd.shuffle(dem)
+                back = k % 2 == 1                      # VRPB: the exact fill is on the backhaul side as well
+                if back:
+                    # customers 1,2 linehaul (exact fill a+b' = cap), customers 3,4 backhaul (exact fill)
+                    x = rnd.randint(1, cap - 1)
+                    y = rnd.randint(1, cap - 1)
+                    lh, bh = [x, cap - x, 0, 0], [0, 0, y, cap - y]
+                else:
+                    lh, bh = dem, [0] * N
+                i = {"N": N, "D": D, "lh": lh, "bh": bh, "cap": cap, "open": False, "lim": INF, "H": INF,
+                     "early": [0] * N, "late": [INF] * N, "svc": [0] * N, "speed2": 2, "pts": pts, "grid": g,
+                     "variant": variant_name(0, int(back), 0, 0), "emb": "decimal"}
+                if not instance_ok(i):
+                    continue
+                i["tight"], i["near"] = label(i)
+                insts.append(i)
+        return with_ids(insts)
+
+    def to_td(self, insts):
+        td = super().to_td(insts)
+        cap = torch.tensor([[float(i["cap"])] for i in insts], dtype=torch.float32)
+        td["demand_linehaul"] = torch.tensor([[0] + i["lh"] for i in insts], dtype=torch.float32) / cap
+        td["demand_backhaul"] = torch.tensor([[0] + i["bh"] for i in insts], dtype=torch.float32) / cap
+        td["vehicle_capacity"] = cap / cap
+        return td
+
+    def project(self, td, r, inst):
+        g, d = inst["grid"], self._rows(td)
+        return {"cur": int(d["cur"][r]),
+                "t": self._int(d["t"][r], g),
+                "len": self._int(d["len"][r], g),
+                "ulh": int(round(d["ulh"][r] * inst["cap"])),
+                "ubh": int(round(d["ubh"][r] * inst["cap"])),
+                "visited": [k for k, x in enumerate(d["visited"][r]) if x]}
